@@ -152,6 +152,15 @@ def step (line : String) : String :=
   match line.splitOn " => " with
   | [req, impl] =>
     match words req with
+    | ["xtopics", a] =>
+      match parseList parseMember a, parseNats impl with
+      | some rms, some got =>
+        let ms : List Member := rms.map fun r => ⟨0, r.topics, r.zone⟩
+        let model := KV.GroupGlue.extractTopics ms
+        -- reference: ascending, and exactly the topics somebody lists
+        let want := sortDedup (ms.flatMap (·.topics))
+        answer (if model.isEmpty then "-" else ",".intercalate (model.map toString)) (got == want)
+      | _, _ => "bad-args"
     | ["fmbt", a, b] => stepHelper "fmbt" a b impl
     | ["fparts", a, b] => stepHelper "fparts" a b impl
     | [op, msS, psS] =>
